@@ -373,6 +373,67 @@ def rule_r8_map_collect(text, types, applied):
         applied.append(f'R8(map-collect#{k})')
 
 
+def rule_r9_tuple_clone(text, clones, applied):
+    """`E.clone()` on a tuple (a built-in Clone instance Verus cannot name) -> componentwise clone, which is what the
+    built-in instance does; the sidecar names the expression and its arity, rustc rejects a wrong arity"""
+    for expr, arity in clones:
+        occ = _find_occurrences(text, expr)
+        if len(occ) != 1:
+            raise Undecided(f'lost anchor: tuple clone `{expr}` found {len(occ)} times')
+        a, b = occ[0]
+        if not expr.endswith('.clone()'):
+            raise Undecided('R9: expression must end with .clone()')
+        base = expr[:-len('.clone()')]
+        text = text[:a] + '(' + ', '.join(f'{base}.{i}.clone()' for i in range(arity)) + ')' + text[b:]
+        applied.append(f'R9(tuple-clone {expr})')
+    return text
+
+
+def rule_r8b_extend_map(text, enabled, applied):
+    """`V.extend(ITER.map(|P| BODY))` -> `for x in ITER { let P = x; V.push(BODY); }` (definition of extend over a mapped iterator)"""
+    if not enabled:
+        return text
+    n = 0
+    while True:
+        st = _lex(text)
+        hit = None
+        for i, t in enumerate(st):
+            if t.kind == 'ident' and t.text == 'extend' and i > 0 and st[i - 1].text == '.' and st[i + 1].text == '(':
+                close = match_forward(st, i + 1)
+                # argument ends with `.map(|..| ..)`
+                if st[close - 1].text == ')' or (st[close - 1].text == ',' and st[close - 2].text == ')'):
+                    last = close - 1 if st[close - 1].text == ')' else close - 2
+                    mo = match_backward(st, last)
+                    if st[mo - 1].text == 'map' and st[mo - 2].text == '.' and st[mo + 1].text == '|':
+                        hit = (i, close, mo, last)
+                        break
+        if hit is None:
+            return text
+        i, close, mo, last = hit
+        n += 1
+        j = _receiver_start(st, i, 'R8b')
+        vec = text[st[j].start:st[i - 1].start].rstrip()
+        recv = text[st[i + 2].start:st[mo - 2].start].rstrip()
+        c = mo + 1
+        c2 = c + 1
+        d = 0
+        while not (st[c2].text == '|' and d == 0):
+            if st[c2].text in OPEN:
+                d += 1
+            elif st[c2].text in CLOSE:
+                d -= 1
+            c2 += 1
+        px = text[st[c].end:st[c2].start].strip()
+        b_last = last - 1
+        if st[b_last].text == ',':
+            b_last -= 1
+        body = text[st[c2 + 1].start:st[b_last].end]
+        x = f'__xE{n}'
+        new = f'for {x} in {recv} {{ let {px} = {x}; {vec}.push({body}); }}'
+        text = text[:st[j].start] + new + text[st[close].end:]
+        applied.append(f'R8b(extend-map#{n})')
+
+
 def rule_r1_break_value(text, applied, breaktypes=None):
     """`break E` in a `loop` -> assignment + break (or `return E` when the loop is the function's tail)."""
     n = 0
@@ -725,7 +786,7 @@ def new_fn_spec(attrs):
         'id': attrs['id'], 'file': attrs['file'], 'name': attrs['name'], 'container': attrs.get('in'),
         'props': [p for p in attrs.get('props', '').split(',') if p],
         'ret': None, 'requires': [], 'ensures': [],  # ensures: list of {'label','props','lines'}
-        'loops': {}, 'folds': {}, 'closures': {}, 'ats': [], 'hoist': [], 'lettypes': {}, 'breaktypes': {}, 'desugar_for': [], 'adapters': {}, 'mapcollects': {}, 'container_extra': [], 'attrs': [],
+        'loops': {}, 'folds': {}, 'closures': {}, 'ats': [], 'hoist': [], 'lettypes': {}, 'breaktypes': {}, 'desugar_for': [], 'adapters': {}, 'mapcollects': {}, 'tupleclones': [], 'extendmaps': False, 'container_extra': [], 'attrs': [],
         'recommends': [], 'decreases': [], 'stub_only': attrs.get('stub') == 'only', 'trusted_reason': attrs.get('trusted'),
     }
 
@@ -823,6 +884,12 @@ def parse_spec_file(path):
             sect = a['lines']
         elif kw == 'hoist':
             cur['hoist'] += pos
+            sect = None
+        elif kw == 'tupleclone':
+            cur['tupleclones'].append((pos[0], int(attrs.get('arity', '2'))))
+            sect = None
+        elif kw == 'extendmap':
+            cur['extendmaps'] = True
             sect = None
         elif kw == 'mapcollect':
             cur['mapcollects'][int(pos[0])] = attrs['type']
@@ -954,6 +1021,8 @@ class Generator:
             text = rule_r2_fold(text, spec['folds'], applied)
             text = rule_r7_adapters(text, spec['adapters'], applied)
             text = rule_r8_map_collect(text, spec['mapcollects'], applied)
+            text = rule_r8b_extend_map(text, spec['extendmaps'], applied)
+            text = rule_r9_tuple_clone(text, spec['tupleclones'], applied)
             text = rule_r1_break_value(text, applied, spec['breaktypes'])
             text = rule_r6_desugar_for(text, spec['desugar_for'], applied)
             text = rule_r3_closures(text, spec['closures'], applied, None)
